@@ -26,7 +26,8 @@ import (
 type vf31File struct {
 	Idx int    `json:"idx"`
 	Rel string `json:"rel"`
-	U   int64  `json:"u"`
+	D   int64  `json:"d"`
+	S   int64  `json:"s"`
 	US  int64  `json:"us"`
 }
 
@@ -43,7 +44,8 @@ type vf31Case struct {
 }
 
 type vf31Inst struct {
-	U   int64  `json:"u"`
+	D   int64  `json:"d"` // days since 1970-01-01 (UTC) ...
+	S   int64  `json:"s"` // ... and second of that day (Unix seconds do not fit the model's integers after 2038)
 	US  int64  `json:"us"`
 	Off int    `json:"off"`
 	Raw string `json:"raw"`
@@ -88,7 +90,7 @@ func vf31ParseInst(t testing.TB, raw string) vf31Inst {
 		t.Fatalf("listed start %q is not RFC 3339: %v", raw, err)
 	}
 	_, off := tm.Zone()
-	return vf31Inst{U: tm.Unix(), US: int64(tm.Nanosecond() / 1000), Off: off / 60, Raw: raw}
+	return vf31Inst{D: tm.Unix() / 86400, S: tm.Unix() % 86400, US: int64(tm.Nanosecond() / 1000), Off: off / 60, Raw: raw}
 }
 
 func TestVerif_C31_API(t *testing.T) {
@@ -203,8 +205,11 @@ func TestVerif_C31_API(t *testing.T) {
 				// position of the file among the files ordered by start instant
 				fs := append([]vf31File(nil), grp.Files...)
 				sort.Slice(fs, func(i, j int) bool {
-					if fs[i].U != fs[j].U {
-						return fs[i].U < fs[j].U
+					if fs[i].D != fs[j].D {
+						return fs[i].D < fs[j].D
+					}
+					if fs[i].S != fs[j].S {
+						return fs[i].S < fs[j].S
 					}
 					return fs[i].US < fs[j].US
 				})
